@@ -127,6 +127,9 @@ func (e *envelopeEncryption) intermediateKeyFromEKR(sk accessorRevokable, ekr *E
 		return e.Crypto.Decrypt(ekr.EncryptedKey, skBytes)
 	})
 	if err != nil {
+		// ikBuffer may already hold the decrypted key (e.g. if only releasing sk failed); don't leave it on the heap
+		internal.MemClr(ikBuffer)
+
 		return nil, err
 	}
 
